@@ -214,6 +214,15 @@ def run(tier, seed, t0):
                 for b in (1, 2, 5, 50):
                     if b <= a:
                         cases.append({"kind": "pI", "seq": x * a + y * b})
+    # a (count, length) lattice for the isoelectric point: c residues of one titratable type in a chain of L
+    LL = 200 if tier == "quick" else 600
+    for L in range(1, LL + 1):
+        for x in "KDHYRC":
+            for c in sorted({1, 2, 3, max(1, L // 7), max(1, (3 * L) // 10)}):
+                if c <= L:
+                    cases.append({"kind": "pI", "seq": x * c + "G" * (L - c)})
+        if L >= 5:
+            cases.append({"kind": "pI", "seq": "KK" + "DDD" + "G" * (L - 5)})
     grid = ph_grid(tier)
     nsh = 16 * 6
     shards = [{"tier": tier, "cases": cases[i::nsh]} for i in range(nsh)]
@@ -227,8 +236,8 @@ def run(tier, seed, t0):
              "composition get_isoelectric_point() is called first on the same object): get_NCPR/FCR/mean_net_charge/"
              "fraction_expanding(pH) vs an independent Henderson-Hasselbalch sum, monotone NCPR, |NCPR|<=FCR<=titratable/N, "
              "rejection exactly outside [0,14]; get_isoelectric_point on each of them and on extreme sequences X^a Y^b "
-             "(a up to 1000) with charge_at_pH counted (<=400) and the reference mean charge per titratable residue at the "
-             "returned pH within 0.02; non-trivial = sequences with >=2 kinds of titratable residue" % (n, len(grid)),
+             "(a up to 1000) and on a (count, length) lattice (1-3, L/7, 3L/10 residues of each of K,D,H,Y,R,C in a chain of every length up to %d) with charge_at_pH counted (<=400) and the reference mean charge per titratable residue at the "
+             "returned pH within 0.02; non-trivial = sequences with >=2 kinds of titratable residue" % (n, len(grid), LL),
         bounds={"composition_total": n, "pH_grid": len(grid), "extreme_sizes": list(sizes)},
         assumptions=["EMBOSS pKa values pinned in vmc/refmodel/tables.py"])
 
